@@ -46,7 +46,7 @@ func cntH(q *Query, cur Map, o *FunctionOptions, args []any) (any, error) {
 // returns; ONCE runs once; under every (preemption-bounded) schedule.
 func H_C14_strategies() {
 	n := verif.Choose("rows", maxRows(2, 3)+1)
-	form := verif.Choose("form", 9)
+	form := verif.Choose("form", 10)
 	if form >= 4 && n > 1+verif.Tier() {
 		verif.Assume(false) // nested forms: one row (two in the thorough tier)
 	}
@@ -84,6 +84,9 @@ func H_C14_strategies() {
 		sql = "SELECT a, (SELECT ASYNC.vf(1) AS w FROM dual) AS s FROM t"
 	case 8:
 		sql = "WITH c AS (SELECT a, SPINASYNC.vg(a) FROM t) SELECT a FROM c"
+	case 9:
+		// an ASYNC call started by AWAIT (after Exec's own wait)
+		sql = "SELECT a, AWAIT(ASYNC.vf(a)) AS v FROM t"
 	}
 	got, ok := runQuery(doc, sql)
 	if !ok {
@@ -92,7 +95,7 @@ func H_C14_strategies() {
 	cntMu.Lock()
 	defer cntMu.Unlock()
 	switch form {
-	case 0, 3:
+	case 0, 3, 9:
 		verif.Assert(callsF == n && doneF == n, "async-called-once-per-row-and-completed")
 		var want []any
 		for _, r := range rows {
